@@ -142,6 +142,11 @@ func callAPI(ebr *EndpointBridgeRequest) (record.Record, error) {
 		u.RawQuery = query.Encode()
 	}
 
+	// Check the request parameters, as httptest.NewRequest panics on invalid ones.
+	if _, err := http.NewRequest(ebr.Method, u.String(), nil); err != nil {
+		return nil, fmt.Errorf("failed to build bridged request: %w", err)
+	}
+
 	// Create request and response objects.
 	r := httptest.NewRequest(ebr.Method, u.String(), bytes.NewBuffer(ebr.Data))
 	r.RemoteAddr = endpointBridgeRemoteAddress
